@@ -27,6 +27,7 @@ struct Inv {
     text_compare: Set<String>,    // comparisons of token spelling with string literals
     comma_loops: Set<String>,     // fns that consume Token::Comma themselves
     make_word_uses: Set<String>,  // tokens built from a spelling (comparisons by text)
+    word_value_tests: Set<String>, // tests / transformations applied to the spelling of a word
 }
 
 struct V<'a> {
@@ -69,6 +70,18 @@ impl<'a, 'ast> Visit<'ast> for V<'a> {
             let recv = norm(&m.receiver);
             if recv.contains("parse_") || recv.contains("expect_") {
                 self.inv.err_discard.insert(format!("{}: {}.ok()", self.key(), trunc(&recv, 80)));
+            }
+        }
+        if ["to_uppercase", "to_lowercase", "to_ascii_uppercase", "to_ascii_lowercase", "as_str", "contains", "chars", "len", "is_empty", "parse", "find", "strip_prefix", "strip_suffix", "split", "bytes", "eq", "cmp", "binary_search"].contains(&name.as_str()) {
+            let all = format!("{} ( {} )", norm(&m.receiver), norm(&m.args));
+            if all.contains(". value") || (all.contains("to_string ()") && (all.contains("variable") || all.contains("ident") || all.contains("word"))) {
+                self.inv.word_value_tests.insert(format!("{}: {}.{name}({})", self.key(), trunc(&norm(&m.receiver), 70), trunc(&norm(&m.args), 50)));
+            }
+        }
+        if ["consume_token", "expect_token", "consume_tokens", "parse_keyword_with_tokens"].contains(&name.as_str()) {
+            let a = norm(&m.args);
+            if a.contains("Token :: Word") || a.contains("make_keyword") || a.contains("make_word") {
+                self.inv.word_value_tests.insert(format!("{}: {name}({}) compares a word token by spelling", self.key(), trunc(&a, 60)));
             }
         }
         if name == "consume_token" {
@@ -120,6 +133,12 @@ impl<'a, 'ast> Visit<'ast> for V<'a> {
         syn::visit::visit_expr_if(self, e);
     }
     fn visit_arm(&mut self, a: &'ast syn::Arm) {
+        if let Some((_, g)) = &a.guard {
+            let gs = norm(g);
+            if gs.contains(". value") || gs.contains("to_lowercase") || gs.contains("to_uppercase") {
+                self.inv.word_value_tests.insert(format!("{}: guard {}", self.key(), trunc(&gs, 90)));
+            }
+        }
         let p = norm(&a.pat);
         if p == "Err (_)" {
             self.inv.err_discard.insert(format!("{}: Err(_) => {}", self.key(), trunc(&norm(&a.body), 50)));
@@ -274,6 +293,7 @@ pub fn run(repo: &Path, out: &Path) -> Result<(), String> {
         "text_compare": inv.text_compare,
         "comma_loops": inv.comma_loops,
         "make_word_uses": inv.make_word_uses,
+        "word_value_tests": inv.word_value_tests,
         "pipeline_bodies": pipeline,
         "nondeterminism": uses_nondeterminism,
     });
@@ -306,7 +326,7 @@ pub fn run(repo: &Path, out: &Path) -> Result<(), String> {
         "C02": mk(&["panic_sites", "panic_sites_ast", "raw_access"]),
         "C05": mk(&["err_discard"]),
         "C07": mk(&["raw_access", "no_skip_callers", "pipeline_bodies"]),
-        "C08": mk(&["text_compare", "make_word_uses"]),
+        "C08": mk(&["text_compare", "make_word_uses", "word_value_tests"]),
         "C10": mk(&["location_literals", "twl_literals", "nondeterminism", "raw_access"]),
         "C12": mk(&["err_discard"]),
         "C13": mk(&["comma_loops"]),
